@@ -88,6 +88,10 @@ func canon3(m *model3d.Mesh) []string {
 	return out
 }
 
+// Canon3 / Canon2 / CanonGray: order-free digests for other packages' oracles.
+func Canon3(m *model3d.Mesh) string { return wproto.Hash([]byte(fmt.Sprint(len(canon3(m)), canon3(m)))) }
+func Canon2(m *model2d.Mesh) string { return wproto.Hash([]byte(fmt.Sprint(len(canon2(m)), canon2(m)))) }
+
 func canon2(m *model2d.Mesh) []string {
 	var out []string
 	m.Iterate(func(t *model2d.Segment) {
@@ -296,6 +300,26 @@ func runMC(r *runner, work *choice.Source, search, forceFlat bool) (fs []Finding
 	if big {
 		r.refKnobs = map[string]int{"cm.itemStride": 257, "auto.stride": 257}
 		r.st.probe("mc.big_lattice")
+		if kind == 4 && work.Chance(2, 3) {
+			// a fine lattice leaves room for large coarse-to-fine ratios, with a thin
+			// positive plate or two added so that there are features between the scales
+			bigK = 8 + work.Intn(17)
+			lo, hi := shape.Bounds()
+			for i := 0; i < 1+work.Intn(2); i++ {
+				p := simsolid.Prim{}
+				axis := work.Intn(3)
+				for a := 0; a < 3; a++ {
+					p.Min[a], p.Max[a] = lo[a]+0.05*(hi[a]-lo[a]), hi[a]-0.05*(hi[a]-lo[a])
+				}
+				c := lo[axis] + (0.2+0.6*work.Float())*(hi[axis]-lo[axis])
+				th := shape.Delta * (1.2 + 4*work.Float())
+				p.Min[axis], p.Max[axis] = c-th/2, c+th/2
+				// the plate sticks out of the main body on one side
+				o := (axis + 1) % 3
+				p.Max[o] = hi[o] + (0.3+0.5*work.Float())*(hi[o]-lo[o])
+				shape.Prims = append(shape.Prims, p)
+			}
+		}
 	}
 	r.st.Workers = v.Workers
 	refSolid := &simsolid.Solid3{S: shape, Salt: salt}
